@@ -123,7 +123,10 @@ def run_shard(ctx):
     n_small = ctx.params["small_trees"]
     from vlib.universe import warm_up
 
-    ctx.extra["first_use_order"] = warm_up(U, ctx.rng("warm-up"))[:6]
+    try:
+        ctx.extra["first_use_order"] = warm_up(U, ctx.rng("warm-up"))[:6]
+    except Exception as e:  # noqa: BLE001 - constructing a default instance walks the generated child enumeration
+        ctx.violation("valid-construction-raises", f"constructing a valid default instance raised {type(e).__name__}: {e}", {"where": "first use of every class in a random order"})
     n_large = ctx.params["large_trees"]
     exh_n = ctx.params["exh_n"]
 
@@ -162,7 +165,11 @@ def run_shard(ctx):
                 hostile=0.0,
             )
             s = tg.tree()
-        root = build(U, s)
+        try:
+            root = build(U, s)
+        except Exception as e:  # noqa: BLE001 - the content id is computed from the generated child enumeration
+            ctx.violation("valid-construction-raises", f"constructing a well-typed tree raised {type(e).__name__}: {e}", {"tree": spec_json(s)})
+            continue
         root_pos = Pos((), s, None, None, None, 0)
         cache: dict = {}
         all_pre, _ = ref_dfs(U, root_pos, lambda p: False, cache)
